@@ -74,7 +74,7 @@ def synthetic_setup(rng, ncat=6, multi_label=True):
                 k = rng.choice([1, 1, 2, 3])
                 outs = [rng.choice(cats) for _ in range(k)]
                 table[(x, y)] = [CombinatorResult(cat=c, op_string=f'r{i}{str(x)}{str(y)}', op_symbol=f'<{i}>', head_is_left=((rng.random() < 0.5) if mixed else hl)) for i, c in enumerate(outs)]
-    if rng.random() < 0.12:
+    if rng.random() < 0.25:
         # one pair with several hundred differently labelled results (a rule index does not fit a byte); the result categories cycle
         # with a period coprime to 256
         x, y = rng.choice(cats), rng.choice(cats)
